@@ -61,7 +61,7 @@
 enum { CL_CUT_IN_SC, CL_ONEBYTE, CL_CORRUPT, CL_H265, CL_VALID, CL_SEED, CL_MULTI_AU, CL_3SC, CL_TZ, CL_PREFIX_PS,
        CL_SEGCUT, CL_MUTATED, CL_ARBITRARY, CL_ESC, CL_NOOUT, CL_MANY_AU, CL_CUT_AFTER_SC, CL_LEADZ, CL_CONVERTED,
        CL_FRAMES, CL_F_NALU, CL_F_LEN, CL_F_LEN1, CL_F_ANNEXB, CL_F_VALID, CL_OOB, CL_OOB_RECORD, CL_OOB_INFER, CL_WANT_GLOBAL,
-       CL_GLOBAL_BUILT, CL_VUI, CL_HRD, CL_TIMING, CL_SCALING, CL_REFUSED1, CL_F_CORRUPT, CL_F_SEG, CL_F_COMPLETE, CL_F_MULTI };
+       CL_GLOBAL_BUILT, CL_VUI, CL_HRD, CL_TIMING, CL_SCALING, CL_REFUSED1, CL_F_CORRUPT, CL_F_SEG, CL_F_COMPLETE, CL_F_MULTI, CL_DISC, CL_DISC_RESENT };
 static const char *const class_names[] = {
     "cut_inside_start_code", "one_octet_buffers", "corrupt_input", "h265", "reference_stream", "recorded_stream",
     "ge2_access_units", "has_3_octet_start_code", "trailing_zero_octets", "parameter_sets_prepended",
@@ -70,7 +70,8 @@ static const char *const class_names[] = {
     "au_per_buffer_input", "input_nalu", "input_length_prefixed", "input_length1", "input_annexb_per_au", "au_per_buffer_reference_stream",
     "parameter_sets_only_in_global_headers", "global_headers_avcc_hvcc", "input_encapsulation_inferred_from_headers", "sink_asks_global_headers",
     "global_headers_built_and_checked", "sps_with_vui", "sps_with_hrd", "sps_with_timing_info", "sps_with_scaling_lists",
-    "length1_output_refuses_long_nal", "au_per_buffer_corrupt", "au_per_buffer_segmented", "annexb_complete_access_units", "au_per_buffer_ge2", NULL };
+    "length1_output_refuses_long_nal", "au_per_buffer_corrupt", "au_per_buffer_segmented", "annexb_complete_access_units", "au_per_buffer_ge2",
+    "discontinuity_flagged_buffer", "discontinuity_then_parameter_sets_resent", NULL };
 
 #define MAXCUT 64
 struct cutting { int n; size_t pos[MAXCUT]; bool seg[MAXCUT]; };   /* boundaries strictly inside (0,len) */
@@ -94,9 +95,13 @@ static bool is_prefix_type(bool h265, const uint8_t *hdr)
 }
 
 /* feeds the stream under a cutting and releases the framer */
+static int g_disc_buf = -1;          /* index of the buffer that carries the discontinuity flag (run D), -1: none */
+static size_t g_disc_at;             /* where that buffer begins in the stream */
+static bool g_disc_done;
 static void do_run(struct run *r, bool h265, uint8_t out_encaps, bool want_global, const uint8_t *p, size_t len, const struct cutting *c, bool onebyte)
 {
     memset(r, 0, sizeof(*r));
+    g_disc_done = false;
     struct fx_input in = { UREF_H26X_ENCAPS_ANNEXB, NULL, 0, false };
     r->err = fx_open_ex(&r->fx, h265, out_encaps, want_global, &in);
     if (r->err) return;
@@ -104,9 +109,11 @@ static void do_run(struct run *r, bool h265, uint8_t out_encaps, bool want_globa
         size_t one = 1;
         for (size_t i = 0; i < len && !r->err; i++) r->err = fx_feed(&r->fx, p + i, &one, 1);
     } else {
-        size_t pos = 0; int k = 0;
+        size_t pos = 0; int k = 0, nb = 0;
         while (pos < len && !r->err) {
             size_t seglen[MAXCUT + 1]; int ns = 0; size_t b = pos;
+            fx_flag_discontinuity = (nb++ == g_disc_buf);
+            if (fx_flag_discontinuity) { g_disc_at = pos; g_disc_done = true; }
             for (;;) {
                 size_t e = k < c->n ? c->pos[k] : len;
                 seglen[ns++] = e - b; b = e;
@@ -115,6 +122,7 @@ static void do_run(struct run *r, bool h265, uint8_t out_encaps, bool want_globa
                 if (!seg) break;
             }
             r->err = fx_feed(&r->fx, p + pos, seglen, ns);
+            fx_flag_discontinuity = false;
             pos = b;
         }
     }
@@ -515,7 +523,7 @@ static int run(const uint8_t *tp_, size_t len_, struct vp_report *rep, unsigned 
     /* The case is decoded once with the SPS syntax of the first version of this executor; the octets that follow the
      * output encapsulation choice (all zero on the tapes recorded then) select the new features. If they ask for
      * the optional SPS syntax the case is decoded a second time with g_ext set: that syntax uses no tape octets. */
-    uint8_t m0 = 0, m1 = 0, m2 = 0;
+    uint8_t m0 = 0, m1 = 0, m2 = 0, m3 = 0;
     int kind; bool h265, valid, seed; int ncopies, nmut;
     const uint8_t *st; size_t len;
     static size_t sstart[1024], shdr[1024];
@@ -603,7 +611,7 @@ static int run(const uint8_t *tp_, size_t len_, struct vp_report *rep, unsigned 
      * offsets) 4-octet lengths, bare NAL units, 2-octet lengths */
     oe = UREF_H26X_ENCAPS_ANNEXB;
     { uint8_t v = tp_u8(&t); if (v % 4 == 3) oe = v / 4 % 3 == 0 ? UREF_H26X_ENCAPS_LENGTH4 : v / 4 % 3 == 1 ? UREF_H26X_ENCAPS_NALU : UREF_H26X_ENCAPS_LENGTH2; }
-    if (pass == 0) { m0 = tp_u8(&t); m1 = tp_u8(&t); m2 = tp_u8(&t); }
+    if (pass == 0) { m0 = tp_u8(&t); m1 = tp_u8(&t); m2 = tp_u8(&t); m3 = tp_u8(&t); }
     if (pass == 1 || (m1 & 1) == 0 || !(kind <= 3 || kind == 5)) break;     /* even: the SPS syntax of the first version */
     g_ext = m1;
     }
@@ -933,6 +941,97 @@ static int run(const uint8_t *tp_, size_t len_, struct vp_report *rep, unsigned 
             ret = vp_fail(rep, "C17/cutting/count", "same stream: %d outputs as %s, %d outputs as %s", a->nout, cutname[0], b->nout, cutname[r]);
     }
 
+    /* ---- D: the same stream and cutting, one buffer carrying the discontinuity attribute (reference streams, Annex B
+     * asked). The framers then drop or flag what they were receiving (upipe_h26xf_end_annexb); the property does not
+     * say how much may go, so the oracle only binds what lies clear of the flagged buffer: with a0 the access unit the
+     * buffer begins in, the outputs of the access units up to a0 - 3 are those of the unflagged run; and from the first
+     * access unit r >= a0 + 2 by which every parameter set sent up to a0 + 1 has been sent again (VPS before SPS before
+     * PPS; r = a0 + 2 when a0 - 1 .. a0 + 1 hold no parameter set at all) "every access unit that follows valid
+     * parameter sets is output": the last outputs are, octets, NAL offsets, key / random access flags and slice type,
+     * those of the unflagged run (error flag and picture number aside; the first of them may carry non-slice NAL units
+     * of the lost access units in front). S holds for all outputs. */
+    bool disc = false, disc_resent = false;
+    if (ret == 0 && m3 != 0 && model && valid && !es.overflow && oe == UREF_H26X_ENCAPS_ANNEXB && es.nau >= 1 && runs[2].fx.nout <= 256) {
+        static struct run rd;
+        g_disc_buf = (m3 - 1) % (cut.n + 1);
+        do_run(&rd, h265, oe, want_global, st, len, &cut, false);
+        g_disc_buf = -1;
+        if (rd.err) ret = vp_internal(rep, "fixture (discontinuity run): %s", rd.err);
+        else if (g_disc_done) {
+            const struct fx *fd = &rd.fx, *fr = &runs[2].fx;
+            size_t X = g_disc_at;
+            int a0 = -1;
+            for (int a = 0; a < es.nau; a++) if (es.au[a].start <= X && X < es.au[a].end) a0 = a;
+            if (a0 < 0) a0 = X < es.au[0].start ? 0 : es.nau - 1;
+            disc = true;
+            R("  discontinuity run: buffer %d (from octet %zu, access unit %d) flagged -> %d outputs\n", (m3 - 1) % (cut.n + 1), X, a0, fd->nout);
+            static size_t dq[256], dp[256]; int bad = 0;
+            if (fd->nout > 256) ret = vp_internal(rep, "more than 256 outputs");
+            const char *m = ret == 0 ? check_pieces(h265, fd, st, len, dq, dp, &bad, msg, sizeof(msg)) : NULL;
+            if (m) ret = vp_fail(rep, "C17/discontinuity/pieces", "buffer from octet %zu flagged as discontinuity: %s", X, m);
+            /* prefix */
+            int xp = 0;
+            for (int a = 0; a < es.nau && a <= a0 - 3; a++) if (es.au[a].has_vcl) xp++;
+            for (int i = 0; i < xp && ret == 0; i++) {
+                char why[200]; bool attr_only;
+                if (i >= fd->nout) { ret = vp_fail(rep, "C17/discontinuity/before", "buffer from octet %zu (access unit %d) flagged as discontinuity: output %d, complete long before it, is missing (%d outputs)", X, a0, i, fd->nout); break; }
+                if (!out_equal(&fr->out[i], &fd->out[i], why, sizeof(why), &attr_only))
+                    ret = vp_fail(rep, "C17/discontinuity/before", "buffer from octet %zu (access unit %d) flagged as discontinuity: output %d, complete long before it, differs from the unflagged run: %s", X, a0, i, why);
+            }
+            /* r */
+            int r = -1;
+            bool window_ps = false;
+            for (int a = a0 - 1 < 0 ? 0 : a0 - 1; a <= a0 + 1 && a < es.nau; a++)
+                for (int k = es.au[a].nal0; k < es.au[a].nal1; k++) if (is_ps_type(h265, es.nal[k].type)) window_ps = true;
+            if (!window_ps) { if (a0 + 2 < es.nau) r = a0 + 2; }
+            else {
+                static bool need[3][256]; int outst[3] = { 0, 0, 0 };
+                memset(need, 0, sizeof(need));
+                for (int a = 0; a <= a0 + 1 && a < es.nau; a++)
+                    for (int k = es.au[a].nal0; k < es.au[a].nal1; k++) if (is_ps_type(h265, es.nal[k].type)) {
+                        int rk = ps_rank(h265, es.nal[k].type), id = es.nal[k].id & 255;
+                        if (!need[rk][id]) { need[rk][id] = true; outst[rk]++; }
+                    }
+                for (int a = a0 + 2; a < es.nau && r < 0; a++) {
+                    for (int k = es.au[a].nal0; k < es.au[a].nal1; k++) if (is_ps_type(h265, es.nal[k].type)) {
+                        int rk = ps_rank(h265, es.nal[k].type), id = es.nal[k].id & 255;
+                        bool lower = true; for (int q = 0; q < rk; q++) if (outst[q]) lower = false;
+                        if (lower && need[rk][id]) { need[rk][id] = false; outst[rk]--; }
+                    }
+                    if (outst[0] + outst[1] + outst[2] == 0) r = a;
+                }
+                if (r >= 0) disc_resent = true;
+            }
+            if (r >= 0 && ret == 0) {
+                int xr = 0, nref = fr->nout;
+                for (int a = 0; a < r; a++) if (es.au[a].has_vcl) xr++;
+                int T = nref - xr;
+                if (T > 0 && fd->nout < T)
+                    ret = vp_fail(rep, "C17/discontinuity/after", "buffer from octet %zu (access unit %d) flagged as discontinuity: %d outputs, but the %d access units from number %d on (octet %zu) follow parameter sets sent again after it", X, a0, fd->nout, T, r, es.au[r].start);
+                for (int i = 0; i < T && ret == 0; i++) {
+                    const struct fx_out *a = &fr->out[xr + i], *b = &fd->out[fd->nout - T + i];
+                    const char *why = NULL;
+                    /* the first of them may come with non-slice NAL units of the lost access units in front (nothing
+                     * told the framer that an access unit ended there): it ends with the access unit then */
+                    if (i == 0 && b->size != (size_t)-1) {
+                        int ar = r; while (ar < es.nau && !es.au[ar].has_vcl) ar++;
+                        size_t L = ar < es.nau ? es.au[ar].end - es.au[ar].start : 0;
+                        if (L && b->size > L && !memcmp(b->bytes + (b->size - L), st + es.au[ar].start, L)) continue;
+                    }
+                    if (a->size != b->size || (a->size != (size_t)-1 && memcmp(a->bytes, b->bytes, a->size))) why = "octets";
+                    else if (a->noff != b->noff || memcmp(a->off, b->off, a->noff * sizeof(a->off[0]))) why = "NAL offset attributes";
+                    else if (a->key != b->key) why = "key flag";
+                    else if (a->random != b->random) why = "random access flag";
+                    else if (a->has_type != b->has_type || (a->has_type && a->type != b->type)) why = "slice type";
+                    if (why)
+                        ret = vp_fail(rep, "C17/discontinuity/after", "buffer from octet %zu (access unit %d) flagged as discontinuity: access unit %d (octets [%zu,..), %d from the end), which follows parameter sets sent again after it, is not output as in the unflagged run: %s differ (%zu and %zu octets)", X, a0, r + i, es.au[r].start, T - i, why, a->size, b->size);
+                }
+            }
+        }
+        end_run(&rd);
+        if (ret == 0 && rd.audit) ret = vp_fail(rep, "C17/framer/leak", "discontinuity run: after releasing the framer: %s", rd.audit);
+    }
+
     /* the flow definitions the sink received: the same under all cuttings */
     for (int r = 1; r < 3 && ret == 0; r++) {
         const struct fx *a = &runs[0].fx, *b = &runs[r].fx;
@@ -1150,6 +1249,8 @@ static int run(const uint8_t *tp_, size_t len_, struct vp_report *rep, unsigned 
         if (refused1) rep->classes |= 1ull << CL_REFUSED1;
     }
     if (want_global) rep->classes |= 1ull << CL_WANT_GLOBAL;
+    if (disc) rep->classes |= 1ull << CL_DISC;
+    if (disc_resent) rep->classes |= 1ull << CL_DISC_RESENT;
     if (global_built) rep->classes |= 1ull << CL_GLOBAL_BUILT;
     if (es.has_vui) rep->classes |= 1ull << CL_VUI;
     if (es.has_hrd) rep->classes |= 1ull << CL_HRD;
